@@ -4440,11 +4440,11 @@ class MacroInstance: # dummy object used to track nested macros for diagnostics
 # =========
 
 # Output names become members of the generated state struct as they are: they must not be keywords of C or C++ (the header is
-# meant to be usable from both), nor the macros of <stdbool.h>
+# meant to be usable from both), nor the macros of <stdbool.h> -- nor `inval`, which the generated end() defines as a macro
 C_RESERVED_WORDS = frozenset("""
 auto break case char const continue default do double else enum extern float for goto if inline int long register restrict return
 short signed sizeof static struct switch typedef union unsigned void volatile while _Alignas _Alignof _Atomic _Bool _Complex _Generic
-_Imaginary _Noreturn _Static_assert _Thread_local bool true false
+_Imaginary _Noreturn _Static_assert _Thread_local bool true false inval
 alignas alignof and and_eq asm bitand bitor catch char8_t char16_t char32_t class compl concept consteval constexpr constinit const_cast
 co_await co_return co_yield decltype delete dynamic_cast explicit export friend mutable namespace new noexcept not not_eq nullptr operator
 or or_eq private protected public reinterpret_cast requires static_assert static_cast template this thread_local throw try typeid typename
